@@ -823,9 +823,10 @@ impl<C: Ctxt> Ctxt for TraceparentCtxt<C> {
 
         let inner = self.inner.open_root(props);
 
+        // A root frame without a traceparent of its own hides the current one
         TraceparentCtxtFrame {
             inner,
-            active: slot.is_some(),
+            active: true,
             slot,
         }
     }
@@ -836,9 +837,16 @@ impl<C: Ctxt> Ctxt for TraceparentCtxt<C> {
 
         let inner = self.inner.open_push(props);
 
+        // If the props don't carry a traceparent of their own then the frame
+        // carries the current one, so it follows the frame across threads
+        let slot = match slot {
+            Some(slot) => Some(slot),
+            None => get_active_traceparent(),
+        };
+
         TraceparentCtxtFrame {
             inner,
-            active: slot.is_some(),
+            active: true,
             slot,
         }
     }
@@ -849,9 +857,16 @@ impl<C: Ctxt> Ctxt for TraceparentCtxt<C> {
 
         let inner = self.inner.open_disabled(props);
 
+        // If the props don't carry a traceparent of their own then the frame
+        // carries the current one, so it follows the frame across threads
+        let slot = match slot {
+            Some(slot) => Some(slot),
+            None => get_active_traceparent(),
+        };
+
         TraceparentCtxtFrame {
             inner,
-            active: slot.is_some(),
+            active: true,
             slot,
         }
     }
